@@ -14,6 +14,7 @@ import (
 	"github.com/jackc/pgx/v5"
 	"github.com/specterops/dawgs/cypher/frontend"
 	"github.com/specterops/dawgs/cypher/models/cypher"
+	cypherFormat "github.com/specterops/dawgs/cypher/models/cypher/format"
 	"github.com/specterops/dawgs/cypher/models/pgsql"
 	"github.com/specterops/dawgs/cypher/models/pgsql/format"
 	"github.com/specterops/dawgs/cypher/models/pgsql/translate"
@@ -207,6 +208,11 @@ func c04Fixed() []string {
 		"insert into traversal_terminal_filter (id) select 1;", "unidirectional_asp_harness('x')",
 		"zqbenign", "zqbenign'", "ZQBENIGN",
 	}
+	// every line-break character PostgreSQL, Go or Unicode knows, alone and carrying a statement (only \n and \r end a
+	// -- comment for the server: the others must stay inert wherever the text lands, incl. the Cypher debug comment)
+	for _, lb := range []string{"\n", "\r", "\r\n", "\n\r", "\u2028", "\u2029", "\x0b", "\x0c", "\u0085"} {
+		out = append(out, "x"+lb+"delete from node; --", lb+"delete from node; --", "x'"+lb+"y", "x"+lb)
+	}
 	return out
 }
 
@@ -289,6 +295,9 @@ func (c04Suite) Gen(rng *Rng, tier string, w *bufio.Writer, stats *Stats) {
 		fmt.Fprintf(w, "t %s %s %s\n", t.ID, enc, jsonQuote(s))
 		stats.Inc(t.Kind)
 	}
+	n++
+	fmt.Fprintf(w, "# case %d options\n", n)
+	fmt.Fprintln(w, "o options")
 	thorough := tier == "thorough"
 	fixed := c04Fixed()
 	nrand := 6
@@ -482,46 +491,96 @@ func c04JSONLeaves(v any, out []string) []string {
 	return out
 }
 
+// c04Options: the option parameters of the entry points and the values the runner exercises for every case that reaches
+// the entry point (compared with the Lean side's list by the `o` op, which the T-tie compares with the extracted table).
+const c04Options = "translate.FromCypher.stripLiterals=false,true;cypherformat.NewCypherEmitter.stripLiterals=false,true;" +
+	"cypherformat.RegularQuery.stripLiterals=false,true;cypherformat.Emitter.StripLiterals=false,true;" +
+	"format.OutputBuilder.MaterializeParameters=false,true;format.OutputBuilder.StripLiterals=false,true"
+
+type c04Out struct {
+	res   string // (ok sql (pgx n) (params …)) | (err …) | (panic …)
+	fc    string // FromCypher(stripLiterals=false) statement
+	extra string // further fields of the answer: fcs (stripLiterals=true), cy / cys (the Cypher texts of the header), fmtstrip
+	mat   string // the statement formatted with OutputBuilder.MaterializeParameters = true
+}
+
 // c04Translate runs the pg driver's text path: ParseCypher(NewContext) -> Translate -> Translated, then pgx's
-// NamedArgs rewriter (what the driver hands to the connection), all on the real code.
-func c04Translate(query string, mapper pgsql.KindMapper, params map[string]any, withFromCypher bool) (res string, fc string) {
-	fc = "(skip)"
+// NamedArgs rewriter (what the driver hands to the connection), all on the real code; and every option of the entry
+// points under both values.
+func c04Translate(query string, mapper pgsql.KindMapper, params map[string]any, withFromCypher bool, stats *Stats) (out c04Out) {
+	out.fc, out.mat = "(skip)", "(skip)"
 	model, err := frontend.ParseCypher(frontend.NewContext(), query)
 	if err != nil {
-		return "(err " + jsonQuote("parse:"+c04ErrClass(err)) + ")", fc
+		out.res = "(err " + jsonQuote("parse:"+c04ErrClass(err)) + ")"
+		return
 	}
 	if model == nil {
-		return "(err \"parse:nil-model\")", fc
+		out.res = "(err \"parse:nil-model\")"
+		return
 	}
 	tr, terr, panicked := translateSafe(model, mapper, params)
 	if panicked != "" {
-		return "(panic " + jsonQuote(c04Trunc(panicked)) + ")", fc
+		out.res = "(panic " + jsonQuote(c04Trunc(panicked)) + ")"
+		return
 	}
 	if terr != nil {
-		return "(err " + jsonQuote("translate:"+c04ErrClass(terr)) + ")", fc
+		out.res = "(err " + jsonQuote("translate:"+c04ErrClass(terr)) + ")"
+		return
 	}
 	sql, ferr := translate.Translated(tr)
 	if ferr != nil {
-		return "(err " + jsonQuote("format:"+c04ErrClass(ferr)) + ")", fc
+		out.res = "(err " + jsonQuote("format:"+c04ErrClass(ferr)) + ")"
+		return
 	}
 	nargs := -1
 	if _, args, rerr := pgx.NamedArgs(tr.Parameters).RewriteQuery(context.Background(), nil, sql, nil); rerr == nil {
 		nargs = len(args)
 	}
-	res = fmt.Sprintf("(ok %s (pgx %d) %s)", jsonQuote(sql), nargs, c04Params(tr.Parameters))
-	if withFromCypher {
-		fc = c04FromCypher(model, mapper)
+	out.res = fmt.Sprintf("(ok %s (pgx %d) %s)", jsonQuote(sql), nargs, c04Params(tr.Parameters))
+	// OutputBuilder.StripLiterals = true (a field the formatter never reads today: the text must not change)
+	stripBuilder := format.NewOutputBuilder()
+	stripBuilder.StripLiterals = true
+	if sql2, err := format.Statement(tr.Statement, stripBuilder); err != nil {
+		out.extra += " (fmtstrip (err " + jsonQuote("format:"+c04ErrClass(err)) + "))"
+	} else if sql2 == sql {
+		out.extra += " (fmtstrip (same))"
+	} else {
+		out.extra += " (fmtstrip (ok " + jsonQuote(sql2) + "))"
 	}
-	return res, fc
+	stats.Inc("opt.OutputBuilder.StripLiterals.true")
+	// OutputBuilder.MaterializeParameters = true on the whole statement (the translator does it for nested SQL only)
+	if len(tr.Parameters) > 0 {
+		if msql, err := format.Statement(tr.Statement, format.NewOutputBuilder().WithMaterializedParameters(tr.Parameters)); err != nil {
+			out.mat = "(err " + jsonQuote("format:"+c04ErrClass(err)) + ")"
+		} else {
+			out.mat = "(ok " + jsonQuote(msql) + ")"
+			stats.Inc("opt.OutputBuilder.MaterializeParameters.true")
+		}
+	}
+	if withFromCypher {
+		out.fc = c04FromCypher(model, mapper, false)
+		out.extra += " (fcs " + c04FromCypher(model, mapper, true) + ")"
+		for _, strip := range []bool{false, true} {
+			tag := "cy"
+			if strip {
+				tag = "cys"
+			}
+			if text, err := cypherFormat.RegularQuery(model, strip); err == nil {
+				out.extra += " (" + tag + " " + jsonQuote(strings.TrimSpace(text)) + ")"
+			}
+			stats.Inc(fmt.Sprintf("opt.FromCypher.stripLiterals.%v", strip))
+		}
+	}
+	return
 }
 
-func c04FromCypher(model *cypher.RegularQuery, mapper pgsql.KindMapper) (out string) {
+func c04FromCypher(model *cypher.RegularQuery, mapper pgsql.KindMapper, stripLiterals bool) (out string) {
 	defer func() {
 		if p := recover(); p != nil {
 			out = "(panic " + jsonQuote(c04Trunc(fmt.Sprint(p))) + ")"
 		}
 	}()
-	f, err := translate.FromCypher(context.Background(), model, mapper, false, translate.DefaultGraphID)
+	f, err := translate.FromCypher(context.Background(), model, mapper, stripLiterals, translate.DefaultGraphID)
 	if err != nil {
 		return "(err " + jsonQuote("fromcypher:"+c04ErrClass(err)) + ")"
 	}
@@ -552,6 +611,9 @@ func (r *c04Runner) Step(t []string, raw string) string {
 		// corpus files of suite c04q share the file-name prefix of this suite (corpus/C04/c04q*.ops matches c04*.ops)
 		return "(r (skip \"c04q-op\"))"
 	}
+	if len(t) >= 1 && t[0] == "o" {
+		return "(r (opts " + jsonQuote(c04Options) + "))"
+	}
 	if len(t) < 4 || t[0] != "t" {
 		return "bad-op"
 	}
@@ -581,35 +643,33 @@ func (r *c04Runner) Step(t []string, raw string) string {
 		// the generated name is one the template itself binds (n, e, p, …): a different query, not a twin
 		return "(r (skip \"name-collision\"))"
 	}
-	var hres, bres, fc string
+	var h, b c04Out
 	switch tmpl.Kind {
 	case "param":
-		hres, _ = c04Translate(tmpl.Query, c04Mapper(""), map[string]any{"pv": s}, false)
-		bres, _ = c04Translate(tmpl.Query, c04Mapper(""), map[string]any{"pv": c04Benign}, false)
-		fc = "(skip)"
+		h = c04Translate(tmpl.Query, c04Mapper(""), map[string]any{"pv": s}, false, r.stats)
+		b = c04Translate(tmpl.Query, c04Mapper(""), map[string]any{"pv": c04Benign}, false, r.stats)
 	case "parammap":
-		hres, _ = c04Translate(tmpl.Query, c04Mapper(""), map[string]any{"pv": map[string]any{"k": s, "inner": map[string]any{"x": s}, "l": []any{s, "zz"}}}, false)
-		bres, _ = c04Translate(tmpl.Query, c04Mapper(""), map[string]any{"pv": map[string]any{"k": c04Benign, "inner": map[string]any{"x": c04Benign}, "l": []any{c04Benign, "zz"}}}, false)
-		fc = "(skip)"
+		h = c04Translate(tmpl.Query, c04Mapper(""), map[string]any{"pv": map[string]any{"k": s, "inner": map[string]any{"x": s}, "l": []any{s, "zz"}}}, false, r.stats)
+		b = c04Translate(tmpl.Query, c04Mapper(""), map[string]any{"pv": map[string]any{"k": c04Benign, "inner": map[string]any{"x": c04Benign}, "l": []any{c04Benign, "zz"}}}, false, r.stats)
 	case "parammapkey":
-		hres, _ = c04Translate(tmpl.Query, c04Mapper(""), map[string]any{"pv": map[string]any{s: "v"}}, false)
-		bres, _ = c04Translate(tmpl.Query, c04Mapper(""), map[string]any{"pv": map[string]any{c04Benign: "v"}}, false)
-		fc = "(skip)"
+		h = c04Translate(tmpl.Query, c04Mapper(""), map[string]any{"pv": map[string]any{s: "v"}}, false, r.stats)
+		b = c04Translate(tmpl.Query, c04Mapper(""), map[string]any{"pv": map[string]any{c04Benign: "v"}}, false, r.stats)
 	case "paramlist":
-		hres, _ = c04Translate(tmpl.Query, c04Mapper(""), map[string]any{"pv": []string{s, "zz"}}, false)
-		bres, _ = c04Translate(tmpl.Query, c04Mapper(""), map[string]any{"pv": []string{c04Benign, "zz"}}, false)
-		fc = "(skip)"
+		h = c04Translate(tmpl.Query, c04Mapper(""), map[string]any{"pv": []string{s, "zz"}}, false, r.stats)
+		b = c04Translate(tmpl.Query, c04Mapper(""), map[string]any{"pv": []string{c04Benign, "zz"}}, false, r.stats)
 	case "kindname":
 		hq := strings.ReplaceAll(tmpl.Query, "§", hraw)
 		bq := strings.ReplaceAll(tmpl.Query, "§", braw)
-		hres, fc = c04Translate(hq, c04Mapper(hraw), nil, true)
-		bres, _ = c04Translate(bq, c04Mapper(braw), nil, false)
+		h = c04Translate(hq, c04Mapper(hraw), nil, true, r.stats)
+		b = c04Translate(bq, c04Mapper(braw), nil, false, r.stats)
 	default:
 		hq := strings.ReplaceAll(tmpl.Query, "§", hraw)
 		bq := strings.ReplaceAll(tmpl.Query, "§", braw)
-		hres, fc = c04Translate(hq, c04Mapper(""), nil, !strings.Contains(tmpl.Query, "$"))
-		bres, _ = c04Translate(bq, c04Mapper(""), nil, false)
+		h = c04Translate(hq, c04Mapper(""), nil, !strings.Contains(tmpl.Query, "$"), r.stats)
+		b = c04Translate(bq, c04Mapper(""), nil, false, r.stats)
 	}
+	hres, bres, fc := h.res, b.res, h.fc
+	extra := h.extra + " (math " + h.mat + ") (matb " + b.mat + ")"
 	r.stats.Inc("run." + tmpl.Kind)
 	if strings.HasPrefix(hres, "(ok") {
 		r.stats.Inc("translated." + tmpl.Kind)
@@ -617,8 +677,8 @@ func (r *c04Runner) Step(t []string, raw string) string {
 		r.stats.Inc("rejected." + tmpl.Kind)
 	}
 	kind := tmpl.Kind
-	return fmt.Sprintf("(r (site %s) (tmpl %s) (kind %s) (xf %s) (hraw %s) (braw %s) (hval %s) (bval %s) (h %s) (b %s) (fc %s))",
-		jsonQuote(tmpl.Site), jsonQuote(tmpl.ID), kind, tmpl.Xf(), jsonQuote(hraw), jsonQuote(braw), jsonQuote(s), jsonQuote(c04Benign), hres, bres, fc)
+	return fmt.Sprintf("(r (site %s) (tmpl %s) (kind %s) (xf %s) (hraw %s) (braw %s) (hval %s) (bval %s) (h %s) (b %s) (fc %s)%s)",
+		jsonQuote(tmpl.Site), jsonQuote(tmpl.ID), kind, tmpl.Xf(), jsonQuote(hraw), jsonQuote(braw), jsonQuote(s), jsonQuote(c04Benign), hres, bres, fc, extra)
 }
 
 // ---------------------------------------------------------------- c04q: differential of the string functions
